@@ -600,6 +600,70 @@ def _is_not_a_uid(text):
         return text in ("NOT_A_UID", "-1")
 
 
+def r11_4(prog, rep):
+    """Every counted traversal of the shared task table covers the whole table: `for (i = 0; i < ztask_ht; i++) task_ht[i]`."""
+    rid = "R11.4"
+    n = 0
+    for f in prog.fns_in(DAEMON):
+        if not f.cfg:
+            continue
+        cfg = f.cfg
+        loops = cfg.natural_loops()
+        seen = 0
+        for h, blks in sorted(loops.items(), reverse=True):
+            idxvars = set()
+            for b in blks:
+                for e in cfg.blocks[b].elems:
+                    for nn in walk(e["x"]):
+                        if nn.get("k") == "idx" and lv(nn["b"]) == "task_ht":
+                            iv = strip_casts(nn["i"])
+                            if iv.get("k") == "ref":
+                                idxvars.add(iv["n"])
+            # counters: incremented inside the loop
+            counters = set()
+            for b in blks:
+                for e in cfg.blocks[b].elems:
+                    for l, kind, nn in writes(e["x"]):
+                        if kind == "incdec" and "++" in nn["op"] and lv(l) in idxvars:
+                            counters.add(lv(l))
+            # only the innermost loop that increments the counter
+            if not counters or any(h2 != h and h2 in blks and counters & _incs_in(cfg, loops[h2]) for h2 in loops):
+                continue
+            c = cfg.cond(h)
+            for v in sorted(counters):
+                n += 1
+                seen += 1
+                key = "%s/task_ht-traversal#%d" % (f.name, seen)
+                atoms = cond_atoms(c, True) if c is not None else []
+                bound = [a for a in atoms if len(a) == 5 and a[0] == "<" and a[1] == v]
+                init0 = False
+                for p in cfg.lpreds[h]:
+                    if p in blks:
+                        continue
+                    for e in cfg.blocks[p].elems:
+                        for l, kind, nn in writes(e["x"]):
+                            if lv(l) == v and (nn.get("init") is not None or nn.get("k") == "bin") and int_value(nn.get("init") if kind == "decl" else nn.get("r")) == 0:
+                                init0 = True
+                if bound and bound[0][2] == "ztask_ht" and init0:
+                    rep.ok(rid, key, f.loc(cfg.blocks[h].elems[-1].get("line") if cfg.blocks[h].elems else None), "%s runs over 0 .. ztask_ht - 1" % v)
+                else:
+                    rep.fail(rid, key, f.loc(cfg.blocks[h].elems[-1].get("line") if cfg.blocks[h].elems else None),
+                             "traversal of the task table with counter %s is bounded by `%s` starting at %s: slots outside that range are skipped (tasks vanish from "
+                             "listings, checkpoints or a resize)" % (v, show(c) if c is not None else "?", "0" if init0 else "a non-zero index"))
+    if n < 4:
+        rep.broken_("rule=R11.4 expected >=4 counted traversals of task_ht, found %d" % n)
+
+
+def _incs_in(cfg, blks):
+    out = set()
+    for b in blks:
+        for e in cfg.blocks[b].elems:
+            for l, kind, nn in writes(e["x"]):
+                if kind == "incdec":
+                    out.add(lv(l))
+    return out
+
+
 def run(prog, rep, tier, snap):
     rep.rule("R11.1", "ownership test dominates every effect on a task handle taken from the shared table; uid gate of cmd_http", 15)
     n = r11_1(prog, rep)
@@ -609,5 +673,7 @@ def run(prog, rep, tier, snap):
     r11_2(prog, rep)
     rep.rule("R11.3", "run-as uid/gid provenance: dflt_cred only, written only from compl_uid(authenticated uid)", 4)
     r11_3(prog, rep)
+    rep.rule("R11.4", "counted traversals of the shared task table cover every slot", 4)
+    r11_4(prog, rep)
 
 READY = True
